@@ -24,6 +24,9 @@ ASSUMPTIONS = [
     "correspondence run only (extra_checks, classes openssl-*)",
     "ASN.1 values of a Python type that does not fit their tag (a list under INTEGER, ...) are outside the modelled "
     "domain of encode_parsed_asn1; slicing the str of an OID in pem_decode_key is outside the modelled domain",
+    "command line: the pubkey branch of bits.__main__.main is modelled (Model/CliKeys.v: point, pubkey, optional "
+    "pem_encode_key) and observed in-process through harness/cli.py; bits wif is compared with the wif_encode / "
+    "wif_decode model ops; argument parsing, read_bytes / write_bytes formatting are undone by the harness, not modelled",
     "modelled, not verified: src/bits/utils.py (pubkey, point, is_point, compressed_pubkey, wif_encode, wif_decode, "
     "pem_encode_key, pem_decode_key, pubkey_from_pem), src/bits/pem.py (parse_asn1, encode_parsed_asn1, encode_oid, "
     "parse_oid, encode_pem, decode_base64_pem)",
@@ -382,6 +385,107 @@ def _openssl_pub(pub):
     return None
 
 
+# ---------------------------------------------------------------- the command line (bits pubkey / bits wif), in-process
+_EXC = {"AssertionError": AssertionError, "ValueError": ValueError, "KeyError": KeyError, "IndexError": IndexError,
+        "TypeError": TypeError, "OverflowError": OverflowError}
+WROTE = "REFUSED-BUT-WROTE-OUTPUT"
+
+
+def _fmt_in(data, fmt):
+    if fmt == "raw":
+        return bytes(data)
+    if fmt == "hex":
+        return data.hex().encode() + b"\n"
+    return ("".join(format(b, "08b") for b in data)).encode() + b"\n"
+
+
+def _parse_out(out, fmt):
+    if fmt in ("raw", "pem"):
+        return out
+    if not out.endswith(b"\n"):
+        return (WROTE, "no newline after %s output" % fmt, out)
+    t = out[:-1].decode()
+    if fmt == "hex":
+        return bytes.fromhex(t)
+    return int(t, 2).to_bytes(len(t) // 8, "big") if t else b""
+
+
+def _run_cli(argv, stdin, via_files=False, out_on_stdout=False):
+    """-> ("ok", output bytes) | raises the exception class that ended main() | (WROTE, ...) when a refusal wrote output"""
+    import cli
+    import os
+    import tempfile
+    d = None
+    try:
+        if via_files:
+            d = tempfile.mkdtemp(prefix="c14cli_", dir=os.getcwd())
+            fi, fo = os.path.join(d, "in"), os.path.join(d, "out")
+            open(fi, "wb").write(stdin)
+            r = cli.run_main(list(argv) + ["-i", fi, "-o", fo], stdin=b"")
+            for k in ("ret",):
+                pass
+            import gc
+            gc.collect()          # argparse.FileType handles are closed by the garbage collector
+            fout = open(fo, "rb").read() if os.path.exists(fo) else b""
+            out = r["out"] + fout
+        else:
+            r = cli.run_main(list(argv), stdin=stdin)
+            out = r["out"]
+    finally:
+        if d:
+            import shutil
+            shutil.rmtree(d, ignore_errors=True)
+    if r["rc"] is None:
+        return ("ok", out)
+    if out:
+        return (WROTE, str(r["rc"])[:80], out)
+    raise _EXC.get(r["exc"], RuntimeError)("cli refused: %s" % (str(r["rc"])[:120],))
+
+
+def _i_cli_pubkey(cv, data, compressed, infmt, outfmt, via_files):
+    argv = ["pubkey"] + (["-X"] if compressed else []) + {"raw": ["-1"], "hex": ["-1x"], "bin": ["-1b"], "default": []}[infmt] \
+        + {"raw": ["-0"], "hex": ["-0x"], "bin": ["-0b"], "pem": ["-0pem"], "default": []}[outfmt]
+    with _ctx(cv):
+        r = _run_cli(argv, _fmt_in(data, "hex" if infmt == "default" else infmt), via_files)
+    if r[0] != "ok":
+        return r
+    return _parse_out(r[1], "hex" if outfmt == "default" else outfmt)
+
+
+def _i_cli_wif_encode(cv, key, ty, net, data, infmt, style, via_files):
+    """style: bit 0 long option names, bit 1 -P, bit 2 pass --data even when empty, bit 3 omit defaults"""
+    long_, pr, always_data, omit = style & 1, style & 2, style & 4, style & 8
+    argv = ["wif"]
+    if not (omit and ty == "p2pkh"):
+        argv += ["--addr-type" if long_ else "-T", ty]
+    if not (omit and net == "mainnet"):
+        argv += ["--network" if long_ else "-N", net]
+    if data or always_data:
+        argv += ["--data" if long_ else "-D", data.hex()]
+    if pr:
+        argv += ["--print" if long_ else "-P"]
+    argv += {"raw": ["-1"], "hex": ["-1x"], "bin": ["-1b"], "default": []}[infmt]
+    with _ctx(cv):
+        r = _run_cli(argv, _fmt_in(key, "hex" if infmt == "default" else infmt), via_files)
+    if r[0] != "ok":
+        return r
+    out = r[1]
+    if pr:
+        if not out.endswith(b"\n"):
+            return (WROTE, "-P did not append a newline", out)
+        out = out[:-1]
+    return out
+
+
+def _i_cli_wif_decode(w, style):
+    import json
+    r = _run_cli(["wif", "--decode"] + (["-1"] if style & 1 else []) + (["-N", "testnet"] if style & 2 else []), w)
+    if r[0] != "ok":
+        return r
+    d = json.loads(r[1].decode())
+    return (bytes.fromhex(d["version"]), d["network"], d["addr_type"], bytes.fromhex(d["key"]), bytes.fromhex(d["data"]))
+
+
 IMPL = {
     "pubkey": lambda x, y, c: _u().pubkey(x, y, compressed=c),
     "point": _i_point,
@@ -400,6 +504,9 @@ IMPL = {
     "der_encode_key": _i_der_encode_key,
     "pem_decode_key": _i_pem_decode_key,
     "pubkey_from_pem": _i_pubkey_from_pem,
+    "cli_pubkey": _i_cli_pubkey,
+    "cli_wif_encode": _i_cli_wif_encode,
+    "cli_wif_decode": _i_cli_wif_decode,
     "openssl_priv": _openssl_priv,
     "openssl_pub": _openssl_pub,
 }
@@ -415,6 +522,13 @@ def model_call(c):
     if op in ("pem_encode_key", "der_encode_key"):
         cv = curve(a[0])
         return "c14_" + op, [cv["p"], cv["a"], cv["n"], cv["G"][0], cv["G"][1], a[1]]
+    if op == "cli_pubkey":       # model of the pubkey branch of __main__.main (Model/CliKeys.v) = point ; pubkey [; pem_encode_key]
+        cv = curve(a[0])
+        return "c14_cli_pubkey", [cv["p"], cv["a"], cv["b"], cv["n"], cv["G"][0], cv["G"][1], a[1], a[2], a[4] == "pem"]
+    if op == "cli_wif_encode":   # the library op's model: --data absent = b""
+        return "c14_wif_encode", [curve(a[0])["n"], a[1], a[2], a[3], a[4]]
+    if op == "cli_wif_decode":
+        return "c14_wif_decode_full", [a[0]]
     return "c14_" + op, a
 
 
@@ -875,6 +989,100 @@ def _gen_pem(rng, T, out, keys, pts):
         out.append(case("armor-roundtrip", "decode_base64_pem", ref_pem(der, b"X"), strict=True))
 
 
+def _gen_cli(rng, T, out, keys, pts):
+    """`bits pubkey` / `bits wif` through bits.__main__.main(): same answers and same refusals as the library"""
+    p = SECP["p"]
+    (x, y), (x1, y1) = pts[0], pts[13]
+    X, Y = x.to_bytes(32, "big"), y.to_bytes(32, "big")
+    nr = _nonresidue_x(0, rng).to_bytes(32, "big")
+    cands = [("cli-valid-comp", 0, ref_sec1_encode(x, y, True)), ("cli-valid-uncomp", 0, ref_sec1_encode(x, y, False)),
+             ("cli-valid-comp", 0, ref_sec1_encode(x1, y1, True)), ("cli-valid-uncomp", 0, ref_sec1_encode(x1, y1, False)),
+             ("cli-comp-x-ge-p", 0, b"\x02" + p.to_bytes(32, "big")), ("cli-comp-x-ge-p", 0, b"\x03" + b"\xff" * 32),
+             ("cli-comp-x-ge-p", 0, b"\x02" + (p + 5).to_bytes(32, "big")),
+             ("cli-comp-nonresidue-x", 0, b"\x02" + nr), ("cli-comp-nonresidue-x", 0, b"\x03" + nr),
+             ("cli-comp-nonresidue-x", 0, b"\x02" + (5).to_bytes(32, "big")),
+             ("cli-comp-other-parity", 0, bytes([3 - (y & 1)]) + X),
+             ("cli-len65-prefix-02-03", 0, bytes([2 + (y & 1)]) + X + Y), ("cli-len65-prefix-02-03", 0, bytes([3 - (y & 1)]) + X + Y),
+             ("cli-len33-prefix-04", 0, b"\x04" + X),
+             ("cli-hybrid-06-07", 0, bytes([6 + (y & 1)]) + X + Y), ("cli-hybrid-06-07", 0, bytes([6 + (y & 1)]) + X),
+             ("cli-prefix-other", 0, b"\x00" + X), ("cli-prefix-other", 0, b"\x05" + X + Y),
+             ("cli-uncomp-bad-y", 0, b"\x04" + X + ((y + 1) % p).to_bytes(32, "big")),
+             ("cli-uncomp-y-ge-p", 0, b"\x04" + X + p.to_bytes(32, "big")),
+             ("cli-uncomp-x-ge-p", 0, b"\x04" + p.to_bytes(32, "big") + Y),
+             ("cli-uncomp-off-curve", 0, b"\x04" + nr + Y)]
+    for L in (0, 1, 31, 34, 64, 66):
+        cands.append(("cli-bad-length", 0, (b"\x02" + X + Y + b"\0\0")[:L]))
+    for cv in ((43, 79, 67) if T else (43,)):
+        G = curve(cv)["G"]
+        gx, gy = G[0].to_bytes(32, "big"), G[1].to_bytes(32, "big")
+        cands += [("cli-small-valid", cv, bytes([2 + (G[1] & 1)]) + gx), ("cli-small-valid", cv, b"\x04" + gx + gy),
+                  ("cli-small-x-plus-p", cv, bytes([2 + (G[1] & 1)]) + (G[0] + cv).to_bytes(32, "big")),
+                  ("cli-small-x-plus-p", cv, b"\x04" + (G[0] + cv).to_bytes(32, "big") + gy),
+                  ("cli-small-y-plus-p", cv, b"\x04" + gx + (G[1] + cv).to_bytes(32, "big")),
+                  ("cli-small-nonresidue-x", cv, b"\x02" + _nonresidue_x(cv, rng).to_bytes(32, "big")),
+                  ("cli-small-len65-prefix-02", cv, bytes([2 + (G[1] & 1)]) + gx + gy)]
+    infmts = ["hex", "raw", "bin", "default"]
+    i = 0
+    for cls, cv, bs in cands:
+        for comp in (True, False):
+            for outfmt in ("hex", "raw", "bin", "pem", "default"):
+                if outfmt == "default" and not (T or i % 4 == 0):
+                    i += 1
+                    continue
+                for infmt in (infmts if T else [infmts[i % 4]]):
+                    out.append(case(cls + ("-X" if comp else ""), "cli_pubkey", cv, bs, comp, infmt, outfmt, (i % 5 == 0), strict=True))
+                i += 1
+    # private-key input: small curves (k.G is cheap) in every combination, a handful of secp256k1 keys
+    for cv in ((43, 79, 67) if T else (43,)):
+        nn = SMALL_N[cv]
+        for k in (1, 2, nn - 1, 0, nn, nn + 1):
+            for comp in (True, False):
+                for outfmt in ("hex", "raw", "pem"):
+                    out.append(case("cli-privkey-small" + ("" if 0 < k < nn else "-invalid"), "cli_pubkey", cv, k.to_bytes(32, "big"),
+                                    comp, infmts[(k + comp) % 3], outfmt, False, strict=True))
+    sk = [keys[0], keys[12 + 30], keys[5]] + (keys[20:30] if T else [])
+    for j, k in enumerate(sk):
+        kb = k.to_bytes(32, "big")
+        out.append(case("cli-privkey-secp", "cli_pubkey", 0, kb, bool(j % 2), infmts[j % 3], ("hex", "raw", "pem")[j % 3], j == 1, strict=True))
+        out.append(case("cli-privkey-secp", "cli_pubkey", 0, kb, not (j % 2), "hex", "hex", False, strict=True))
+    for kb in (b"\0" * 32, SECP["n"].to_bytes(32, "big"), b"\xff" * 32):
+        out.append(case("cli-privkey-invalid", "cli_pubkey", 0, kb, True, "hex", "hex", False, strict=True))
+        out.append(case("cli-privkey-invalid", "cli_pubkey", 0, kb, False, "raw", "pem", False, strict=True))
+    # wif: encode
+    wk = [keys[0].to_bytes(32, "big"), keys[12 + 31].to_bytes(32, "big"), keys[5].to_bytes(32, "big")]
+    sfx = [b"", b"\x01", b"\x00", bytes(range(33)), bytes(rng.randrange(256) for _ in range(120))]
+    j = 0
+    for net in ("mainnet", "testnet", "regtest"):
+        for ty in WIF_TYPES:
+            for rep in range(3 if T else 1):
+                out.append(case("cli-wif-enc-%s" % net, "cli_wif_encode", 0, wk[j % 3], ty, net, sfx[j % 5], infmts[j % 4], j % 16,
+                                j % 7 == 0, strict=True))
+                j += 1
+    for kb in (b"\0" * 32, SECP["n"].to_bytes(32, "big"), b"\xff" * 32, b"\x01" * 31, b"\x01" * 33, b""):
+        for st in (0, 2, 5):
+            out.append(case("cli-wif-enc-bad-key", "cli_wif_encode", 0, kb, "p2pkh", "mainnet", b"\x01", "hex" if st else "raw", st, False, strict=True))
+    for net, ty in (("mainnet", "p2tr"), ("signet", "p2pkh"), ("mainnet", "P2PKH"), ("Mainnet", "p2pkh")):
+        out.append(case("cli-wif-enc-bad-name", "cli_wif_encode", 0, wk[0], ty, net, b"", "hex", 0, False))
+    for k in (0, 1, 30, 31, 32):
+        out.append(case("cli-wif-enc-small-n", "cli_wif_encode", 43, k.to_bytes(32, "big"), "p2wpkh", "testnet", b"", "hex", 1, False, strict=True))
+    # wif: decode
+    strs = []
+    for j, ty in enumerate(WIF_TYPES):
+        for net in ("mainnet", "regtest"):
+            strs.append(("cli-wif-dec-valid", ref_b58check(bytes([WIF_BASE[net] + j]) + wk[j % 3] + sfx[j % 5])))
+    w0 = strs[0][1]
+    for i2 in (range(len(w0)) if T else range(0, len(w0), 6)):
+        c = bytes([rng.choice([ch for ch in B58 if ch != w0[i2]])])
+        strs.append(("cli-wif-dec-corrupt-1char", w0[:i2] + c + w0[i2 + 1:]))
+    strs += [("cli-wif-dec-corrupt-badchar", w0[:5] + b"0" + w0[6:]), ("cli-wif-dec-corrupt-badchar", w0[:9] + b"l" + w0[10:]),
+             ("cli-wif-dec-whitespace", w0 + b"\n"), ("cli-wif-dec-whitespace", b" " + w0), ("cli-wif-dec-truncated", w0[:-1]),
+             ("cli-wif-dec-empty", b""), ("cli-wif-dec-short-payload", ref_b58check(b"\x80")), ("cli-wif-dec-short-payload", ref_b58check(b""))]
+    for v in (0x00, 0x7F, 0x88, 0xEE, 0xF7, 0xFF, 0x6F):
+        strs.append(("cli-wif-dec-version-unknown", ref_b58check(bytes([v]) + wk[0] + b"\x01")))
+    for j, (cls, w) in enumerate(strs):
+        out.append(case(cls, "cli_wif_decode", w, j % 4, strict=True))
+
+
 _LAST = {}
 
 
@@ -887,6 +1095,7 @@ def gen_cases(rng, tier):
     _gen_wif(rng, T, out, keys)
     _gen_asn1(rng, T, out, keys, pts)
     _gen_pem(rng, T, out, keys, pts)
+    _gen_cli(rng, T, out, keys, pts)
     _LAST["cases"] = out
     _LAST["keys"] = keys
     _LAST["pts"] = pts
@@ -896,9 +1105,9 @@ def gen_cases(rng, tier):
 def shrink(c):
     a = c["args"]
     idx = [i for i, v in enumerate(a) if isinstance(v, (bytes, bytearray))]
-    if not idx or c["op"] in ("pem_encode_key", "der_encode_key", "wif_encode", "encode_pem"):
+    if not idx or c["op"] in ("pem_encode_key", "der_encode_key", "wif_encode", "encode_pem", "cli_wif_encode"):
         return
-    i = idx[-1]
+    i = idx[-1] if not c["op"].startswith("cli_") else idx[0]
     for b in shrink_bytes(a[i]):
         c2 = dict(c)
         c2["args"] = a[:i] + [b] + a[i + 1:]
@@ -1021,10 +1230,51 @@ def prop_oracle(c):
                 return _openssl_pub(key)
             return None
         return None if r[0] == "err" else "pem_encode_key accepted %d bytes" % len(key)
+    if op == "cli_pubkey":
+        cv, data, comp, infmt, outfmt, via = a
+        cc = curve(cv)
+        if len(data) == 32:
+            k = int.from_bytes(data, "big")
+            P = None if not 0 < k < cc["n"] else (secp_point(k) if cv == 0 else ref_mul(cv, k))
+        elif len(data) in (33, 65):
+            P = ref_sec1_decode(cv, data)
+        else:
+            P = None
+        want = None if P is None else ref_sec1_encode(P[0], P[1], comp)
+        if want is not None and outfmt == "pem":
+            want = ref_pem(ref_der_pub(want), b"PUBLIC KEY")
+        r = _try(_i_cli_pubkey, *a)
+        if r[0] == "ok" and isinstance(r[1], tuple) and r[1] and r[1][0] == WROTE:
+            return "`bits pubkey` refused (%s) but wrote output %r" % (r[1][1], r[1][2][:80])
+        if want is None:
+            return None if r[0] == "err" else "`bits pubkey%s` accepts %s, which is not a valid key: it printed %r" % (
+                " -X" if comp else "", data.hex(), r[1][:100])
+        if r != ("ok", want):
+            return "`bits pubkey%s -0%s` on %s gave %r, expected %s" % (" -X" if comp else "", outfmt, data.hex(), r, want.hex() if outfmt != "pem" else want)
+        return None
+    if op == "cli_wif_encode":
+        cv, key, ty, net, data, infmt, style, via = a
+        valid = len(key) == 32 and 0 < int.from_bytes(key, "big") < curve(cv)["n"] and net in WIF_BASE and ty in WIF_TYPES
+        r = _try(_i_cli_wif_encode, *a)
+        if r[0] == "ok" and isinstance(r[1], tuple) and r[1] and r[1][0] == WROTE:
+            return "`bits wif` refused (%s) but wrote output %r" % (r[1][1], r[1][2][:80])
+        if not valid:
+            return None if r[0] == "err" else "`bits wif` accepted invalid input and printed %r" % (r[1],)
+        want = ref_b58check(bytes([WIF_BASE[net] + WIF_TYPES.index(ty)]) + key + data)
+        return None if r == ("ok", want) else "`bits wif` gave %r, expected %r" % (r, want)
+    if op == "cli_wif_decode":
+        want = ref_wif_decode(a[0])
+        r = _try(_i_cli_wif_decode, *a)
+        if r[0] == "ok" and isinstance(r[1], tuple) and r[1] and r[1][0] == WROTE:
+            return "`bits wif --decode` refused (%s) but wrote output %r" % (r[1][1], r[1][2][:80])
+        if want is None:
+            return None if r[0] == "err" else "`bits wif --decode` accepts %r" % (a[0],)
+        return None if (r[0] == "ok" and tuple(r[1]) == want) else "`bits wif --decode` gave %r, expected %r" % (r, want)
     return None
 
 
-ORACLE_OPS = {"point", "is_point", "pubkey", "wif_encode", "wif_decode_full", "pem_encode_key"}
+ORACLE_OPS = {"point", "is_point", "pubkey", "wif_encode", "wif_decode_full", "pem_encode_key", "cli_pubkey", "cli_wif_encode",
+              "cli_wif_decode"}
 
 
 def _viol(c, observed, expected, verdict):
@@ -1042,7 +1292,7 @@ def extra_checks(ctx):
     n = 0
     seen = set()
     budget = 100000 if T else 5000
-    for c in cases:
+    for c in sorted(cases, key=lambda c: not c["op"].startswith("cli_")):     # the command-line cases first
         if c["op"] not in ORACLE_OPS:
             continue
         if c["op"] == "point" and c["args"][0] == 0 and c["cls"].startswith("lenbad") and not T and n % 3:
